@@ -37,6 +37,14 @@ pub fn cases(ctx: &Ctx) -> Vec<WCase> {
         let mut sp = SpecCfg::new(0);
         sp.drain = false;
         s.specs.push(sp);
+        // half of them: a second spectator that falls silent for good, so that the host itself drops an endpoint (a
+        // Disconnected event enters the never-drained queue) and hundreds of further events follow
+        if i % 2 == 1 {
+            let mut sp2 = SpecCfg::new(0);
+            sp2.drain = false;
+            sp2.pauses.push((rr.range(2500, 4000), 100_000_000));
+            s.specs.push(sp2);
+        }
         s.limit_ms = 3000 * 17 * 3 + 20_000;
         out.push(wcase(format!("flap-{i}"), s));
     }
